@@ -262,6 +262,16 @@ func genDesc(r *rng.R) *desc {
 		}
 		d.Directives = append(d.Directives, dirDesc{Name: "dd", Args: []argDesc{{"x", tref{rng.Pick(r, ok), randWrapIn(r)}}}})
 	}
+	// AdditionalTypes: what schema.New would not reach by itself, and usually everything else too;
+	// in a quarter of the schemas only a random part of the rest (then erasing a gated element can
+	// leave a type that needs no feature unreferenced)
+	reach := d.reachable(nil)
+	sparse := r.Chance(1, 4)
+	for _, t := range d.Types {
+		if !reach[t.Name] || !sparse || r.Chance(1, 3) {
+			d.Additional = append(d.Additional, t.Name)
+		}
+	}
 	return d
 }
 
